@@ -82,6 +82,9 @@ func (g *vfGen) pick(n int) int {
 }
 
 func vfLower() byte {
+	if vfConcreteHoles {
+		return 'a'
+	}
 	c := vfByte()
 	vfAssume(c >= 'a')
 	vfAssume(c <= 'z')
